@@ -169,7 +169,7 @@ CLAIMS = {
         'reconciling an unchanged tree performs zero puts and returns the mark with all formatting identities; an untouched child still in place under an in-tree parent is returned intact whatever '
         'happens to its siblings. Partial: the puts themselves, slice-copy provenance and comments are decided by the oracle: up to 3 mark/reconcile rounds with 0..5 pure-AST mutations (replace / swap / '
         'duplicate expressions, primitives, operators, statement insert / delete / replace / move / reverse / duplicate, foreign FST nodes, container resize); result must satisfy C01, equal the edited AST, '
-        'leave the source identical when nothing changed and keep text and comments of untouched top-level statements. One defect found (1 -> True not reconciled) was repaired in /repo.',
+        'leave the source identical when nothing changed and keep text and comments of untouched top-level statements. One defect found (1 -> True not reconciled) was repaired in /repo. The loop of recurse_slice over an edited list (models/SliceReplay.v: maximal runs of consecutive source elements by one slice operation, in-place and pure elements alone, tail deleted) leaves exactly the edited list whatever the output held, and only recurses into an unchanged list (2 theorems, tied to the put_slice calls real reconcile() makes). Deterministic stages: primitive fields, foreign runs and nodes written in a form only their old home allows, Dict re-pairing, try clause counts.',
    note='Trusted: Coq kernel/vm_compute; hand model Reconcile.v tied by correspondence of put counts on edits that do not move slice elements; ast.unparse/parse round trip as the definition of a valid edited tree; CPython parser. No axioms.',
    design='DESIGN.md section 4 C13'),
  'C15': dict(
